@@ -18,8 +18,9 @@ ASSUMPTIONS = [
     "_get_iso_rad by differential execution on Float (1e-12; padding rules and ratios bit-exact)",
     "numpy matmul/dot/cos/sin agree with the Lean Float operations within 1e-12 on O(1) entries (BLAS summation "
     "order, libm)",
-    "that SRF/Krige/CondSRF use positions only through model.isometrize (pre_pos, _krige_pos) is established by "
-    "the search on the real API, not by a theorem about those classes (their algebra is C05/C11)",
+    "that Krige and SRF use positions only through model.isometrize (pre_pos, _krige_pos) is modelled by GSV.Model.Pipe "
+    "(composition of the Geo, Krige and Gen models) and tied by capturing the assembled kriging matrix, the right-hand "
+    "sides and the generator arrays of real objects (1e-11 / 1e-10); CondSRF and vector fields by the search only",
     "lat-lon and temporal models are out of scope here (C13)",
 ]
 
@@ -94,6 +95,78 @@ def vec(res):
     if isinstance(res, dict):
         raise RuntimeError(f"driver error: {res}")
     return np.asarray(proto.unbits(res), dtype=float)
+
+
+def _pipe_cases(rng, gs, dim, angles, anis, add):
+    """Krige / SRF objects with a rotated anisotropic model: captured kriging matrix + right-hand sides and generator
+    outputs, to be compared with GSV.Model.Pipe (distCC/distCT, srfRandmeth/srfFourier and the transformed-mode form)."""
+    import gstools.krige.base as KB
+    var = float(np.round(rng.uniform(0.5, 3), 3))
+    ls = float(np.round(np.exp(rng.uniform(-0.5, 1.0)), 3))
+    nug = float(rng.choice([0.0, 0.0, 0.25]))
+    Model = [gs.Exponential, gs.Gaussian, gs.Spherical][rng.randint(3)]
+    with warnings.catch_warnings():
+        warnings.simplefilter("ignore")
+        model = Model(dim=dim, var=var, len_scale=ls, nugget=nug, anis=anis if anis else 1.0, angles=angles if angles else 0.0)
+    fa, fs = proto.fbits(model.angles), proto.fbits(model.anis)
+    n, m = int(rng.randint(1, 6)), int(rng.randint(1, 5))
+    cpos = rng.randn(dim, n) * 2
+    tpos = rng.randn(dim, m) * 2
+    if rng.rand() < 0.4:
+        tpos[:, 0] = cpos[:, 0]                      # a target on a datum
+    exact = bool(nug > 0 and rng.rand() < 0.5)
+    cap = {}
+    orig_c = KB.calc_field_krige_and_variance_c
+
+    def spy_k(mat_, vecs, cond, num_threads=None):
+        cap["vecs"] = np.array(vecs, copy=True)
+        return orig_c(mat_, vecs, cond, num_threads)
+
+    def pinv_k(mat_):
+        cap["mat"] = np.array(mat_, copy=True)
+        return np.linalg.pinv(mat_)
+    KB.calc_field_krige_and_variance_c = spy_k
+    try:
+        Kr = [gs.krige.Simple, gs.krige.Ordinary][rng.randint(2)]
+        kk = Kr(model, [c for c in cpos], np.arange(n, dtype=float), pseudo_inv_type=pinv_k, exact=exact)
+        kk([c for c in tpos], mesh_type="unstructured")
+    finally:
+        KB.calc_field_krige_and_variance_c = orig_c
+    case = {"dim": dim, "angles": list(map(float, model.angles)), "anis": list(map(float, model.anis)),
+            "model": model.name, "var": var, "len_scale": ls, "nugget": nug, "exact": exact, "krige": Kr.__name__,
+            "cpos": cpos.tolist(), "tpos": tpos.tolist()}
+    if "mat" in cap and "vecs" in cap:
+        cf = model.cov_nugget if exact else model.covariance
+        add({"op": "pipe_dists", "dim": dim, "n": n, "m": m, "angles": fa, "anis": fs, "cpos": proto.fbits(cpos),
+             "tpos": proto.fbits(tpos)}, "Krige matrix/rhs = cov(dist(isometrize))",
+            (model.covariance, cf, float(kk.cond_err) if np.ndim(kk.cond_err) == 0 else 0.0,
+             cap["mat"][:n, :n], cap["vecs"][:n, :]), "pipe_dists", case)
+    # SRF level
+    gen = ["randmeth", "fourier"][int(rng.rand() < 0.35)] if dim <= 3 else "randmeth"
+    x = int(rng.randint(1, 5))
+    pos = rng.randn(dim, x) * 3
+    seed = int(rng.randint(1, 10 ** 6))
+    with warnings.catch_warnings():
+        warnings.simplefilter("ignore")
+        m0 = Model(dim=dim, var=var, len_scale=ls, anis=anis if anis else 1.0, angles=angles if angles else 0.0)
+        if gen == "randmeth":
+            N = int(rng.randint(1, 9))
+            srf = gs.SRF(m0, seed=seed, mode_no=N)
+            field = srf([c for c in pos], mesh_type="unstructured")
+            g = srf.generator
+            op = {"op": "pipe_srf", "gen": gen, "dim": dim, "N": N, "X": x, "angles": fa, "anis": fs, "var": proto.f2b(var),
+                  "k": proto.fbits(g._cov_sample), "z1": proto.fbits(g._z_1), "z2": proto.fbits(g._z_2), "pos": proto.fbits(pos)}
+        else:
+            period = [float(v) for v in np.round(rng.uniform(8, 20, dim), 2)]
+            srf = gs.SRF(m0, generator="Fourier", seed=seed, period=period, mode_no=[2 * int(rng.randint(1, 3))] * dim)
+            field = srf([c for c in pos], mesh_type="unstructured")
+            g = srf.generator
+            N = int(g._modes.shape[1])
+            op = {"op": "pipe_srf", "gen": gen, "dim": dim, "N": N, "X": x, "angles": fa, "anis": fs,
+                  "sf": proto.fbits(g._spectrum_factor), "k": proto.fbits(g._modes), "z1": proto.fbits(g._z_1),
+                  "z2": proto.fbits(g._z_2), "pos": proto.fbits(pos)}
+    add(op, "SRF(" + gen + ") = generator(isometrize(pos)) = transformed modes at pos", np.asarray(field, dtype=float), "pipe_srf",
+        dict(case, gen=gen, seed=seed, pos=pos.tolist()))
 
 
 # ------------------------------------------------------------------ correspondence
@@ -198,6 +271,11 @@ def correspondence(ctx):
             add({"op": "geo_main_axes", "dim": dim, "angles": proto.fbits(model.angles)}, "CovModel.main_axes",
                 model.main_axes(), "mat", case)
 
+        # pipelines (GSV.Model.Pipe): what a real Krige / SRF object built with the rotated anisotropic model hands to
+        # its covariance function / generator kernel, against the composed model (isometrize -> distances / kernel)
+        if t % 6 == 0:
+            _pipe_cases(rng, gs, dim, angles, anis, add)
+
         # ang2dir (one direction)
         if t % 3 == 0:
             na = int(rng.randint(0, 5))
@@ -241,6 +319,15 @@ def correspondence(ctx):
                 g_rad = vec(r[2])
                 got = [g_iso, g_ani, g_rad]
                 ok = close_mat(g_iso, iso) and close_mat(g_ani, ani) and close_mat(g_rad, rad)
+            elif kind == "pipe_dists":
+                # real matrix block / rhs rows = cf(model's distances): apply the REAL covariance functions to the model's tables
+                cov, cf, err, kmat, kvecs = exp
+                dcc, dct = mat(r[0]), mat(r[1])
+                got = [cov(dcc) + np.diag(np.full(dcc.shape[0], err)), cf(dct)]
+                ok = close_mat(got[0], kmat, 1e-11) and close_mat(got[1], kvecs, 1e-11)
+            elif kind == "pipe_srf":
+                got = [vec(r[0]), vec(r[1])]
+                ok = close_mat(got[0], exp, 1e-10) and close_mat(got[1], exp, 1e-10)
             elif kind == "ang2dir":
                 if exp[0] != "ok":
                     got = r
